@@ -163,13 +163,16 @@ class Engine:
         return b
 
     # ------------------------------------------------------------------ exploration
-    def explore(self, run_one, on_end=None, label=''):
+    def explore(self, run_one, on_end=None, label='', pending=None, stop_when_pending=None, bfs=False):
         """run `run_one()` once per feasible path.  on_end(outcome, value_or_exc, path) is called per path.
-        outcome in {'ok','panic','exit','unsupported','bound'}"""
-        self.pending = [[]]
+        outcome in {'ok','panic','exit','unsupported','bound'}.  With stop_when_pending=k the loop returns as soon as k
+        unexplored decision prefixes are queued (they stay in self.pending) so that they can be handed to worker processes."""
+        self.pending = [[]] if pending is None else list(pending)
         n = 0
         while self.pending:
-            prefix = self.pending.pop()
+            if stop_when_pending is not None and len(self.pending) >= stop_when_pending:
+                break
+            prefix = self.pending.pop(0) if bfs else self.pending.pop()
             self.path = Path(prefix)
             n += 1
             if n > self.max_paths:
@@ -369,7 +372,7 @@ class Engine:
         for pr in place[1]:
             k = pr[0]
             if k == 'deref':
-                v = cont[key] if not isinstance(cont, dict) or key in cont else UNINIT
+                v = _slot_get(cont, key)
                 if isinstance(v, Ref):
                     cont, key = v.cont, v.key
                 elif isinstance(v, Struct) and v.name in ('Box', 'Pin', 'NonNull', 'Unique', 'Rc'):
@@ -462,6 +465,8 @@ class Engine:
                 v = fr.l.get(pl[0], UNINIT)
                 if v is UNINIT:
                     raise Unsupported('read of uninitialised local _%d in %s' % (pl[0], fr.body.name))
+                if type(v) is LazyVal:
+                    v = fr.l[pl[0]] = v.force()
             else:
                 v = self.read_place(fr, pl)
             if isinstance(v, (Struct, Enum, Arr)):
@@ -473,6 +478,8 @@ class Engine:
                 v = fr.l.get(pl[0], UNINIT)
                 if v is UNINIT:
                     raise Unsupported('move of uninitialised local _%d in %s' % (pl[0], fr.body.name))
+                if type(v) is LazyVal:
+                    v = fr.l[pl[0]] = v.force()
                 return v
             return self.read_place(fr, pl)
         return self.eval_const(op[1])
@@ -523,8 +530,12 @@ class Engine:
             last = p0.split('::')[-1]
             cands = [n for n in self.by_last.get(last, []) if self.bodies[n].kind == 'const'
                      and (n == p0 or p0.endswith('::' + n) or n.endswith('::' + p0))]
+            segs0 = p0.split('::')
+            nm0 = self.impl_index.get((type_base(segs0[-2]), None, last)) if len(segs0) >= 2 else None
             if len(cands) == 1:
                 res = self.bodies[cands[0]]
+            elif nm0 and self.bodies[nm0].kind == 'const':
+                res = self.bodies[nm0]
             elif 'promoted[' in p0:
                 # `<T as Trait>::method::promoted[i]` vs body `mod::<impl at ..>::method::promoted[i]`
                 m = re.match(r'^<(.*) as (.*)>::(\w+)::(promoted\[\d+\])$', p0)
@@ -708,6 +719,8 @@ class Engine:
         w = INTW[ty]
         sg = is_signed(ty)
         base = op.replace('WithOverflow', '').replace('Unchecked', '')
+        if (is_sym(a) and z3.is_int(a)) or (is_sym(b) and z3.is_int(b)):
+            return self.int_theory_binop(op, base, a, b, ty)
         if isinstance(a, int) and isinstance(b, int):
             if base == 'Add':
                 r = a + b
@@ -800,6 +813,24 @@ class Engine:
         if base == 'Shr':
             return (A >> B) if sg else z3.LShR(A, B)
         raise Unsupported('symbolic binop ' + op)
+
+    def int_theory_binop(self, op, base, a, b, ty):
+        """operands modelled as mathematical integers (z3 Int) that are known to stay inside the machine range, e.g. run ids:
+        comparisons are exact; +,- report overflow by a range test"""
+        A = a if not isinstance(a, int) else z3.IntVal(a)
+        B = b if not isinstance(b, int) else z3.IntVal(b)
+        if z3.is_bv(A) or z3.is_bv(B):
+            raise Unsupported('mixing Int-theory and bit-vector operands in %s' % op)
+        if base in ('Eq', 'Ne', 'Lt', 'Le', 'Gt', 'Ge'):
+            return {'Eq': A == B, 'Ne': A != B, 'Lt': A < B, 'Le': A <= B, 'Gt': A > B, 'Ge': A >= B}[base]
+        if base in ('Add', 'Sub'):
+            r = A + B if base == 'Add' else A - B
+            if op.endswith('WithOverflow'):
+                w = INTW[ty]
+                lo, hi = (-(1 << (w - 1)), (1 << (w - 1)) - 1) if is_signed(ty) else (0, (1 << w) - 1)
+                return Struct('()', [r, z3.Or(r < lo, r > hi)])
+            return r
+        raise Unsupported('Int-theory binop ' + op)
 
     def cast(self, fr, rv):
         v = self.eval_operand(fr, rv[1])
@@ -956,7 +987,7 @@ class Engine:
                 return tgt.get(1, other)
             return tgt.get(0, other)
         for c, dst in cases:
-            if self.branch(v == z3.BitVecVal(c, v.size())):
+            if self.branch(v == (z3.BitVecVal(c, v.size()) if z3.is_bv(v) else z3.IntVal(c))):
                 return dst
         if other is None:
             raise PathDead()
@@ -1116,6 +1147,9 @@ class Engine:
         h = self.lookup_summary(ci)
         if h is not None:
             self.used_summaries.add(ci.norm)
+            for i, a in enumerate(args):
+                if type(a) is LazyVal:
+                    args[i] = a.force()
             return h(self, ci, args, span)
         # receiver-typed dispatch for generic parameters / dyn objects
         r = self.dynamic_dispatch(ci, args, span)
@@ -1235,9 +1269,16 @@ def _zb(v):
 
 def _slot_get(cont, key):
     try:
-        return cont[key]
+        v = cont[key]
     except (KeyError, IndexError):
         return UNINIT
+    if type(v) is LazyVal:
+        v = v.force()
+        try:
+            cont[key] = v
+        except TypeError:
+            pass
+    return v
 
 
 def _slot_set(cont, key, v):
